@@ -42,11 +42,15 @@ Generic == {C("DEL", <<k>>) : k \in Keys} \cup {C("DEL", <<k, k2>>) : k \in Keys
       \cup {C("EXISTS", <<k>>) : k \in Keys} \cup {C("TYPE", <<k>>) : k \in Keys}
       \cup {C("RENAME", <<k, k2>>) : k \in Keys, k2 \in Keys \cup {S("kb")}} \cup {C("RENAMENX", <<k, k2>>) : k \in Keys, k2 \in Keys \cup {S("kb")}}
       \cup {C("KEYS", <<S("*")>>), C("KEYS", <<S("k*")>>), C("keys", <<S("kb")>>)}
+      \* expiry (times far longer than a run; 0 deletes): which commands keep, clear, set or move it
+      \cup {C("EXPIRE", <<k, I(t)>>) : k \in Keys, t \in {100, 200, 0}} \cup {C("TTL", <<k>>) : k \in Keys}
+      \cup {C("EXPIRE", <<S("ka"), I(150), W(w)>>) : w \in {"NX", "XX", "GT", "LT"}}
 
 StringCmds ==
        {C("SET", <<k, v>>) : k \in Keys, v \in Vals \cup {S("5"), S("s:empty")}} \cup {C("GET", <<k>>) : k \in Keys}
   \cup {C("GETSET", <<k, v>>) : k \in Keys, v \in {S("va"), S("vb")}} \cup {C("SETNX", <<k, v>>) : k \in Keys, v \in {S("va"), S("vb")}}
   \cup {C("SET", <<k, S("vb"), W("XX")>>) : k \in Keys} \cup {C("SET", <<k, S("va"), W("GET")>>) : k \in Keys}
+  \cup {C("SET", <<S("ka"), S("vb"), W("KEEPTTL")>>), C("SET", <<S("ka"), S("va"), W("EX"), I(300)>>), C("SETEX", <<S("ka"), I(400), S("vb")>>)}
   \cup {C("APPEND", <<k, v>>) : k \in Keys, v \in {S("va"), S("s:crlf"), S("5")}} \cup {C("STRLEN", <<k>>) : k \in Keys}
   \cup {C("GETRANGE", <<k, I(a), I(b)>>) : k \in Keys, a \in {0, 1, 0 - 2}, b \in {0 - 1, 1, 5}}
   \cup {C("INCR", <<k>>) : k \in Keys} \cup {C("DECR", <<k>>) : k \in Keys}
